@@ -3,6 +3,8 @@ import DeapModel.Core.BenchMO
 import DeapModel.Core.BenchBinary
 import DeapModel.Core.BenchTools
 import DeapModel.Core.MovingPeaks
+import DeapModel.Core.BenchIndicators
+import DeapModel.Core.Hypervolume
 import Driver.Proto
 /-!
 Protocol handler for C20 (benchmark functions).  Floats travel as bit patterns (`f:<UInt64>`).
@@ -22,9 +24,16 @@ Protocol handler for C20 (benchmark functions).  Floats travel as bit patterns (
   mpinit <dim> <fns> <uh> <uw> {<draw>}*   state built by MovingPeaks.__init__ + unused draws
   mpcall <basis|none> <xs> {<fn> <pos> <h> <w>}*  → value | error
   mpchange … / mpcount …              see `mpChange`, `mpCount`
+  mpworld <k> {instance}*k <nops> {op}*  several benchmark objects, each built by `MovingPeaks.init` from its
+                                     own arguments and tape, and an interleaved history; see `mpWorld`
+  mpmax <basis|none> {<fn> <pos> <h> <w>}*   globalMaximum() and maximums()
+  popdiv <pop;rows>                   movingpeaks.diversity(population)
+  hist translate|scale|rotate|stack … a decorated function re-parameterised through its setters; see `hist`
+  ind diversity <front;rows> <first> <last> | ind convergence <front> <opt> | ind igd <A> <Z>
+  hvpop <weights> <values;rows> <ref|none>   benchmarks.tools.hypervolume on exact rationals
 -/
 namespace DriverC20
-open Proto Bench BenchBin BenchTools MovingPeaks
+open Proto Bench BenchBin BenchTools MovingPeaks BenchInd
 
 def fl (s : String) : Option (List Float) := parseList parseFloat s
 def fl2 (s : String) : Option (List (List Float)) := parseList2 parseFloat s
@@ -131,6 +140,7 @@ def parseDraw (s : String) : Option (Draw Float) :=
   else if s.startsWith "g=" then (parseFloat (s.drop 2).toString).map Draw.gauss
   else if s.startsWith "i=" then (parseNat (s.drop 2).toString).map Draw.randrange
   else if s.startsWith "c=" then (parseNat (s.drop 2).toString).map Draw.choice
+  else if s.startsWith "s=" then (parseList parseNat (s.drop 2).toString).map Draw.sample
   else none
 
 def parseLimits (s : String) : Option (Option (Int × Int)) :=
@@ -216,6 +226,141 @@ def mpCount (toks : List String) : String :=
         (if steps.isEmpty then "-" else ";".intercalate steps) ++ " " ++ showPeaks st.peaks ++ " " ++ toString t'.length
   | _ => "bad-op"
 
+/-! ### several benchmark objects (`mpworld`) -/
+
+def parsePFArg (s : String) : Option PFuncArg :=
+  if s.startsWith "one:" then (parseFn (s.drop 4).toString).map PFuncArg.one
+  else if s.startsWith "many:" then
+    let r := (s.drop 5).toString
+    if r = "-" then some (.many []) else (r.toList.mapM fun c => parseFn c.toString).map PFuncArg.many
+  else none
+
+/-- `<dim> <lim> <sev> <pfunc> <npeaks> <uh> <uw> <period> <basis|none> <minC> <maxC> <minH> <maxH> <minW> <maxW>
+<lambda> <move> <hsev> <wsev> <ndraws> {<draw>}*ndraws`; answers the remaining tokens too.
+`Except`: `error` = the constructor raises (`random.sample` of more than the list holds). -/
+def parseInstance (toks : List String) : Option (Option (Slot Float) × Bool × List String) :=
+  match toks with
+  | dim :: lim :: sev :: pf :: np :: uh :: uw :: period :: basis :: minC :: maxC :: minH :: maxH :: minW :: maxW ::
+      lam :: move :: hsev :: wsev :: nd :: rest => do
+      let dim ← parseNat dim; let lim ← parseLimits lim; let sev ← parseFloat sev; let pf ← parsePFArg pf
+      let np ← parseNat np; let uh ← parseFloat uh; let uw ← parseFloat uw; let period ← parseInt period
+      let basis ← parseOptFloat basis
+      let minC ← parseFloat minC; let maxC ← parseFloat maxC; let minH ← parseFloat minH
+      let maxH ← parseFloat maxH; let minW ← parseFloat minW; let maxW ← parseFloat maxW
+      let lam ← parseFloat lam; let move ← parseFloat move; let hsev ← parseFloat hsev
+      let wsev ← parseFloat wsev; let nd ← parseNat nd
+      if rest.length < nd then none else
+      let tape ← (rest.take nd).mapM parseDraw
+      let base : Config Float := ⟨dim, lim, sev, [], minC, maxC, minH, maxH, minW, maxW, lam, move, hsev, wsev,
+        pyRoundFloat⟩
+      let raises := match pf with
+        | .many fs => decide (fs.length < np)
+        | .one _ => false
+      match MovingPeaks.init base period (basis.map fun b => fun _ => b) pf np uh uw tape with
+      | none => pure (none, raises, rest.drop nd)
+      | some (b, t') => pure (some ⟨b, t'⟩, false, rest.drop nd)
+  | _ => none
+
+def parseInstances : Nat → List String → Option (List (Option (Slot Float) × Bool) × List String)
+  | 0, rest => some ([], rest)
+  | k + 1, toks => do
+    let (s, r, rest) ← parseInstance toks
+    let (ss, rest') ← parseInstances k rest
+    pure ((s, r) :: ss, rest')
+
+/-- `<i> ch` | `<i> e <x>` | `<i> c <x>` -/
+def parseOps : Nat → List String → Option (List (Nat × Action Float))
+  | 0, [] => some []
+  | 0, _ :: _ => none
+  | n + 1, i :: "ch" :: rest => do
+    let i ← parseNat i; let r ← parseOps n rest; pure ((i, .change) :: r)
+  | n + 1, i :: "e" :: x :: rest => do
+    let i ← parseNat i; let x ← fl x; let r ← parseOps n rest; pure ((i, .eval x) :: r)
+  | n + 1, i :: "c" :: x :: rest => do
+    let i ← parseNat i; let x ← fl x; let r ← parseOps n rest; pure ((i, .evalCount x) :: r)
+  | _, _ => none
+
+def showOut : Out Float → String
+  | .changed n => toString n
+  | .value v => showFloat v
+  | .counted v ch ne np er =>
+    showFloat v ++ "," ++ showBool ch ++ "," ++ toString ne ++ "," ++ toString np ++ "," ++
+      (match er with | some e => showFloat e | none => "none")
+
+def showSlot (s : Slot Float) : String :=
+  showPeaks s.b.st.peaks ++ " " ++ (if s.b.cfg.pool.isEmpty then "-" else String.join (s.b.cfg.pool.map showFn)) ++ " " ++
+    toString s.b.st.nevals ++ " " ++ showFloat s.b.err.offline ++ " " ++
+    (match offlineError s.b.err s.b.st.nevals with | some v => showFloat v | none => "none") ++ " " ++
+    toString s.tape.length
+
+/-- `mpworld <k> {instance}*k <nops> {op}*` → `<out>;…;<out> {<peaks> <pool> <nevals> <offline sum> <offlineError> <unused draws>}*k`
+| `error` (a constructor raises) | `bad-tape` -/
+def mpWorld (toks : List String) : String :=
+  match toks with
+  | k :: rest =>
+    match (do let k ← parseNat k
+              let (insts, rest1) ← parseInstances k rest
+              match rest1 with
+              | n :: rest2 => do let n ← parseNat n; let ops ← parseOps n rest2; pure (insts, ops)
+              | [] => none) with
+    | none => "bad-op"
+    | some (insts, ops) =>
+      if insts.any (fun p => p.1.isNone && p.2) then "error"
+      else match insts.mapM (·.1) with
+        | none => "bad-tape"
+        | some w =>
+          match World.run ops w with
+          | none => "bad-tape"
+          | some (w', outs) =>
+            (if outs.isEmpty then "-" else ";".intercalate (outs.map showOut)) ++
+              String.join (w'.map fun s => " " ++ showSlot s)
+  | _ => "bad-op"
+
+def showVP (vp : Float × List Float) : String := showFl (vp.1 :: vp.2)
+
+/-! ### decorator histories (`hist`) -/
+
+/-- `s <param>` | `c <x>` -/
+def parseHOps {P : Type} (pp : String → Option P) : List String → Option (List (HOp P (List Float)))
+  | [] => some []
+  | "s" :: p :: rest => do let p ← pp p; let r ← parseHOps pp rest; pure (.set p :: r)
+  | "c" :: x :: rest => do let x ← fl x; let r ← parseHOps pp rest; pure (.call x :: r)
+  | _ => none
+
+/-- `st <v>` | `sr <Minv;rows>` | `ss <factor>` | `c <x>` -/
+def parseStackOps : List String → Option (List (HOp (StackParam Float) (List Float)))
+  | [] => some []
+  | "st" :: p :: rest => do let p ← fl p; let r ← parseStackOps rest; pure (.set (.t p) :: r)
+  | "sr" :: p :: rest => do let p ← fl2 p; let r ← parseStackOps rest; pure (.set (.r p) :: r)
+  | "ss" :: p :: rest => do let p ← fl p; let r ← parseStackOps rest; pure (.set (.s p) :: r)
+  | "c" :: x :: rest => do let x ← fl x; let r ← parseStackOps rest; pure (.call x :: r)
+  | _ => none
+
+def showHist (o : Option (Option (List (List Float)))) : String :=
+  match o with
+  | none => "bad-op"
+  | some none => "error"
+  | some (some ys) => if ys.isEmpty then "-" else ";".intercalate (ys.map showFl)
+
+/-- `hist translate <v0> {ops}` · `hist scale <f0> {ops}` · `hist rotate <Minv0;rows> {ops}` (the harness hands over
+the inverse of every matrix it installs: `inv` is a parameter of the model, here the identity on the given
+inverse) · `hist stack <t0> <Minv0> <f0> {stack ops}` → the lists handed to the wrapped function, `;`-separated -/
+def hist : List String → String
+  | "translate" :: v0 :: rest =>
+    showHist (do let v ← fl v0; let ops ← parseHOps fl rest; pure (translateHist v ops))
+  | "scale" :: f0 :: rest =>
+    showHist (do let f ← fl f0; let ops ← parseHOps fl rest; pure (scaleHist f ops))
+  | "rotate" :: m0 :: rest =>
+    showHist (do let m ← fl2 m0; let ops ← parseHOps fl2 rest; pure (rotateHist id m ops))
+  | "stack" :: t0 :: m0 :: f0 :: rest =>
+    showHist (do let t ← fl t0; let m ← fl2 m0; let f ← fl f0; let ops ← parseStackOps rest
+                 pure ((scaleFactor f).bind fun r => stackHist id ⟨t, m, r⟩ ops))
+  | _ => "bad-op"
+
+def pair2 : List Float → Option (Float × Float)
+  | a :: b :: _ => some (a, b)
+  | _ => none
+
 def handle : List String → String
   | ["f", name, xs] =>
     match (do let x ← fl xs; single name x) with
@@ -284,6 +429,37 @@ def handle : List String → String
               pure (initPeaks dim fns uh uw tape)) with
     | some (some (peaks, rest)) => showPeaks peaks ++ " " ++ toString rest.length
     | some none => "bad-tape"
+    | none => "bad-op"
+  | "mpworld" :: rest => mpWorld rest
+  | "mpmax" :: basis :: rest =>
+    match (do let b ← parseOptFloat basis; let p ← parsePeaks4 rest; pure (b, p)) with
+    | some (b, p) =>
+      (match globalMaximum p with | some g => showVP g | none => "error") ++ " " ++
+        (let ms := maximums p (b.map fun v => fun _ => v)
+         if ms.isEmpty then "-" else ";".intercalate (ms.map showVP))
+    | none => "bad-op"
+  | ["popdiv", pop] =>
+    match (do let p ← fl2 pop; pure (popDiversity p)) with
+    | some r => showO r
+    | none => "bad-op"
+  | "hist" :: rest => hist rest
+  | ["ind", "diversity", front, first, last] =>
+    match (do let f ← fl2 front; let f ← f.mapM pair2; let a ← fl first; let a ← pair2 a
+              let b ← fl last; let b ← pair2 b; pure (diversity f a b)) with
+    | some r => showO r
+    | none => "bad-op"
+  | ["ind", "convergence", front, opt] =>
+    match (do let f ← fl2 front; let o ← fl2 opt; pure (convergence f o)) with
+    | some r => showO r
+    | none => "bad-op"
+  | ["ind", "igd", a, z] =>
+    match (do let a ← fl2 a; let z ← fl2 z; pure (igd a z)) with
+    | some r => showO r
+    | none => "bad-op"
+  | ["hvpop", ws, vs, rs] =>
+    match (do let w ← parseList parseRat ws; let v ← parseList2 parseRat vs
+              let r ← (if rs = "none" then some none else (parseList parseRat rs).map some); pure (w, v, r)) with
+    | some (w, v, r) => if v.isEmpty then "error" else showRat (Hypervolume.populationHV w v r)
     | none => "bad-op"
   | "mpchange" :: rest => mpChange rest
   | "mpcount" :: rest => mpCount rest
